@@ -184,6 +184,51 @@ theorem streams_decided_per_reader (rs : List ReaderCfg) (is : List InstCfg) (cb
     intro ic _
     by_cases h : absent rc ic <;> simp [h]
 
+/-- Duplicate registration (follow-up, seeded C02-10).  An instrument object created again with the identity (name, kind,
+number type) of an earlier one feeds the earlier one's stream; an instrument that merely shares the NAME of another
+(different kind or number type) owns its own stream.  `ownerOf` never points forward and always points to an instrument
+of exactly the same identity — so `Op.resolve` sends every `Add` to a stream of the instrument's own identity in the
+provider model, to which the per-stream theorems of this file apply. -/
+theorem owner_has_same_identity (is : List InstCfg) (names : List Nat) (j : Nat) :
+    ownerOf is names j ≤ j ∧
+    ∀ ij nj, is[j]? = some ij → names[j]? = some nj →
+      ∃ ik, is[ownerOf is names j]? = some ik ∧ names[ownerOf is names j]? = some nj ∧
+        ik.float = ij.float ∧ ik.updown = ij.updown := by
+  unfold ownerOf
+  cases hij : is[j]? with
+  | none => exact ⟨Nat.le_refl _, by intro ij nj h; cases h⟩
+  | some ij =>
+    cases hnj : names[j]? with
+    | none => exact ⟨Nat.le_refl _, by intro ij' nj h1 h2; cases h2⟩
+    | some nj =>
+      simp only
+      cases h : (List.range j).find? (fun k =>
+          match is[k]?, names[k]? with
+          | some ik, some nk => nk == nj && ik.float == ij.float && ik.updown == ij.updown
+          | _, _ => false) with
+      | none =>
+        simp only [Option.getD_none]
+        refine ⟨Nat.le_refl _, ?_⟩
+        intro ij' nj' h1 h2
+        cases h1; cases h2
+        exact ⟨ij, hij, hnj, rfl, rfl⟩
+      | some k =>
+        simp only [Option.getD_some]
+        have hk := List.find?_some h
+        have hkm := List.mem_range.mp (List.mem_of_find?_eq_some h)
+        refine ⟨Nat.le_of_lt hkm, ?_⟩
+        intro ij' nj' h1 h2
+        cases h1; cases h2
+        cases hik : is[k]? with
+        | none => simp [hik] at hk
+        | some ik =>
+          cases hnk : names[k]? with
+          | none => simp [hik, hnk] at hk
+          | some nk =>
+            simp only [hik, hnk, Bool.and_eq_true, beq_iff_eq] at hk
+            obtain ⟨⟨h1, h2⟩, h3⟩ := hk
+            exact ⟨ik, rfl, by rw [h1], h2, h3⟩
+
 /-- Clause "a monotonic sum never decreases when inputs are non-negative", part 1: with non-negative inputs every
 value ever reported (delta or cumulative) is ≥ 0 — in particular every delta increment. -/
 theorem sum_monotonic_nonneg (tp : Temporality) (limit : Nat) (mono : Bool) (start : Nat) (steps : List Step)
